@@ -95,6 +95,16 @@ def run_impl(key, value):
         vals = canon([R.project_value(v) for v in item.value])
     except Exception as e:
         return ("crash", "projection:" + type(e).__name__, repr(e)[:160])
+    if key.count("|") <= 2 and item.original_value is not None:
+        # modifiers leave their input alone: a second item built from the value objects the first item was given
+        # (same modifier chain) has the same values
+        try:
+            again = SigmaDetectionItem("f", list(item.modifiers), list(item.original_value))
+            vals2 = canon([R.project_value(v) for v in again.value])
+        except Exception as e:
+            return ("crash", "second-item-from-same-value-objects:" + type(e).__name__, repr(e)[:160])
+        if vals2 != vals:
+            return ("crash", "second-item-from-same-value-objects-differs", repr((vals, vals2))[:200])
     return ("ok", vals, "and" if item.value_linking is ConditionAND else "or", bool(item.negated))
 
 
